@@ -101,7 +101,7 @@ def extract_witness(m, inputs, entry_heap):
             out[name] = [_val_float(m, x) for x in v.items]
         elif k == "tuple":
             out[name] = [_val_scalar(m, x) for x in v]
-        elif k in ("func", "obj"):
+        elif k in ("func", "obj", "opaque"):
             out[name] = {"kind": k}
         elif k == "const":
             out[name] = v
